@@ -59,7 +59,7 @@ def rust_field(t):
 
 
 def needs_lt(fields):
-    return any(f["k"] in ("opq", "slice") for f in fields)
+    return any(f["k"] in ("opq", "slice") or (f["k"] == "opt" and needs_lt([f["t"]])) for f in fields)
 
 
 class Val:
@@ -257,7 +257,7 @@ def run_abi(rep, tier, cases, abi, wd, rng):
         if not single:
             lines.append("  { new Uint8Array(wasm.memory.buffer, 0x1800, %d).set([%s]); const r = W%d._fromFFI(rt.internalConstructor, 0x1800, [], [], []); out.readback = J(r); out.fields = J(Object.fromEntries(%s.map(k => [k, r[k]]))); }" % (
             size, imghex, n, json.dumps([FN[i] for i in range(len(c["fields"]))])))
-        lines.append("  { calls.length = 0; host.take%d(new W%d(v)); const cl = calls.find(x => x[0] === 'Host_take%d'); out.take = J(cl ? cl[1] : null); out.take_mem = cl && cl[1].length == 2 && typeof cl[1][1] === 'number' ? (() => { try { return bytes(cl[1][1], %d); } catch (e) { return null; } })() : null; }" % (n, n, n, size))
+        lines.append("  try { calls.length = 0; host.take%d(new W%d(v)); const cl = calls.find(x => x[0] === 'Host_take%d'); out.take = J(cl ? cl[1] : null); out.take_mem = cl && cl[1].length == 2 && typeof cl[1][1] === 'number' ? (() => { try { return bytes(cl[1][1], %d); } catch (e) { return null; } })() : null; } catch (e) { out.take_error = String(e).slice(0, 200); }" % (n, n, n, size))
         if not needs_lt(c["fields"]):
             # returning the struct: receive buffer of the struct's size and alignment -- or, for a single scalar (incl. newtype
             # chains), no buffer at all and only the receiver as argument
@@ -293,6 +293,8 @@ def run_abi(rep, tier, cases, abi, wd, rng):
             continue
         img = expect[n]["img"]
         ncmp += 1
+        if d.get("take_error"):
+            rep.violation(dict(key, what="passing the struct to a method throws", error=d["take_error"].split("(")[0].strip()), {"error": d["take_error"]})
         # 1. bytes written == repr(C) image; nothing written past the struct
         got = d["bytes"]
         bad = [i for i, b in enumerate(img) if b is not None and got[i] != b]
@@ -327,7 +329,8 @@ def run_abi(rep, tier, cases, abi, wd, rng):
         # 4. flattened arguments
         take = json.loads(d["take"]) if d.get("take") else None
         if take is None:
-            rep.violation(dict(key, what="struct parameter: export not called"), {})
+            if not d.get("take_error"):      # (a throwing call is reported above, once)
+                rep.violation(dict(key, what="struct parameter: export not called"), {})
             continue
         args = take[1:]
         exp = expect[n]["args"]
